@@ -2342,6 +2342,11 @@ pub fn gen_e2e(rng: &mut Rng, thorough: bool) -> (String, String) {
     } else {
         "0".to_string()
     };
+    // content-defined chunking has its own findings (see `known_defect`): `slice_for_chunk`
+    // panics on list views stored out of order, and a v2 (RLE) boolean page without any
+    // non-null value panics in `RleValueEncoder::flush_buffer`
+    let known = std::env::var_os("C05_KNOWN").is_some();
+    let cdc = if !known && (v2 || enc_s.contains("RLE")) && schema_s.contains("bool") { "0".to_string() } else { cdc };
     let mut props = format!("v={},enc={},dict={},dps={},pg={},pr={},wb={},rg={},comp={},stats={},bloom={},cdc={},par={}", if v2 { 2 } else { 1 }, enc_s, dict_s, dps, pg, pr, wb, rg, comp, stats, bloom, cdc, par);
     if rgb > 0 {
         write!(props, ",rgb={}", rgb).unwrap();
@@ -2351,6 +2356,7 @@ pub fn gen_e2e(rng: &mut Rng, thorough: bool) -> (String, String) {
     }
     // plan
     let g = if rng.bool() { 0 } else { 1 + rng.below(999) };
+    let g = if !known && cdc != "0" && schema_s.contains("listview") { 0 } else { g };
     let s = if rng.chance(3, 5) { 0 } else { 1 + rng.usize(9) };
     let mut items: Vec<String> = vec![];
     let mut sizes: Vec<usize> = vec![];
